@@ -167,10 +167,11 @@ class AbstractResponderFunc():  # Not a real ABC.
 
     @func.setter
     def func(self, value):  # prFunc_
-        if self._one_shot:
-            value = self._one_shot_func(value)  # Stays a one time action.
-        self._func = value
-        mdl.NotificationCenter.notify(self, 'function')
+        with _libsc3.main._main_lock:  # Clock threads dispatch under this lock.
+            if self._one_shot:
+                value = self._one_shot_func(value)  # Stays a one time action.
+            self._func = value
+            mdl.NotificationCenter.notify(self, 'function')
 
     @property
     def permanent(self):
@@ -182,35 +183,39 @@ class AbstractResponderFunc():  # Not a real ABC.
 
     @permanent.setter
     def permanent(self, value):
-        self._permanent = value
-        if self.enabled:  # enable() and disable() do it otherwise.
-            if value:
-                sac.CmdPeriod.remove(self.__on_cmd_period)
-            else:
-                sac.CmdPeriod.add(self.__on_cmd_period)
+        with _libsc3.main._main_lock:
+            self._permanent = value
+            if self.enabled:  # enable() and disable() do it otherwise.
+                if value:
+                    sac.CmdPeriod.remove(self.__on_cmd_period)
+                else:
+                    sac.CmdPeriod.add(self.__on_cmd_period)
 
     def enable(self):
         '''Enable the responder to process incoming data.'''
-        if not self.enabled:
-            if not self.permanent:
-                sac.CmdPeriod.add(self.__on_cmd_period)
-            self.dispatcher.add(self)
-            self.enabled = True
-            type(self)._all_func_proxies.add(self)
+        with _libsc3.main._main_lock:
+            if not self.enabled:
+                if not self.permanent:
+                    sac.CmdPeriod.add(self.__on_cmd_period)
+                self.dispatcher.add(self)
+                self.enabled = True
+                type(self)._all_func_proxies.add(self)
 
     def disable(self):
         '''Disable the responder, no data is processed.'''
-        if self.enabled:
-            if not self.permanent:
-                sac.CmdPeriod.remove(self.__on_cmd_period)
-            self.dispatcher.remove(self)
-            self.enabled = False
+        with _libsc3.main._main_lock:
+            if self.enabled:
+                if not self.permanent:
+                    sac.CmdPeriod.remove(self.__on_cmd_period)
+                self.dispatcher.remove(self)
+                self.enabled = False
 
     def one_shot(self):
         '''Make the responder a one time action.'''
-        if not self._one_shot:
-            self._one_shot = True
-            self.func = self._func  # Wrapped by the setter.
+        with _libsc3.main._main_lock:
+            if not self._one_shot:
+                self._one_shot = True
+                self.func = self._func  # Wrapped by the setter.
 
     def _one_shot_func(self, wrapped_func):
         def one_shot_func(*args):
@@ -230,10 +235,11 @@ class AbstractResponderFunc():  # Not a real ABC.
         '''
 
         cls = type(self)
-        if self in cls._all_func_proxies:
-            cls._all_func_proxies.remove(self)
-        if self.enabled:
-            self.disable()
+        with _libsc3.main._main_lock:
+            if self in cls._all_func_proxies:
+                cls._all_func_proxies.remove(self)
+            if self.enabled:
+                self.disable()
 
     # def clear(self):
     #     '''Clear the responder's function.'''
